@@ -291,6 +291,12 @@ func valuesEqual(x, y any) error {
 
 	switch xrk {
 	case reflect.Struct:
+		// elements of a slice or array arrive as reflect.Value;
+		// hand the values themselves to the stackage converters
+		if xrv.CanInterface() && yrv.IsValid() && yrv.CanInterface() {
+			x, y = xrv.Interface(), yrv.Interface()
+		}
+
 		if tried, err := stackageStructsEqual(x, y); tried {
 			return err
 		}
